@@ -3,9 +3,11 @@ package props
 import (
 	"context"
 	"fmt"
+	"google.golang.org/grpc/status"
 	"strings"
 	"sync"
 	"testing"
+	"time"
 
 	"pgregory.net/rapid"
 	"verifharness/kit"
@@ -18,6 +20,8 @@ type C10Handler struct {
 }
 
 type C10Case struct {
+	// Stats: do-nothing stats handlers on server and client (kit.Topo.Stats)
+	Stats bool `json:"stats,omitempty"`
 	// ErrKind: the error value the failing transport returns (kit.FaultErrKinds)
 	ErrKind  string       `json:"err_kind,omitempty"`
 	Handlers []C10Handler `json:"handlers"`
@@ -28,13 +32,16 @@ type C10Case struct {
 	// Orphan: the caller also sends a body for a stream id it never opened (the server answers with a reset,
 	// which has to get past whatever the connection's writer is parked on)
 	Orphan bool `json:"orphan,omitempty"`
+	// TickMs: virtual time that passes just before the ending (the "sdl" streams carry a 30 ms grpc-timeout, so with 50 ms
+	// their handlers have returned DeadlineExceeded and their trailers are on their way when the connection ends)
+	TickMs int `json:"tick_ms,omitempty"`
 }
 
 var c10Unary = []string{"ugate", "uctx", "uquick"}
-var c10Stream = []string{"srecv", "sctx", "ssend", "sgate", "secho", "srst"}
+var c10Stream = []string{"srecv", "sctx", "ssend", "sgate", "secho", "srst", "sdl"}
 
 func genC10(t *rapid.T) C10Case {
-	c := C10Case{Ser: rapid.Bool().Draw(t, "ser")}
+	c := C10Case{Ser: rapid.Bool().Draw(t, "ser"), Stats: rapid.IntRange(0, 3).Draw(t, "stats") == 0}
 	c.ErrKind = rapid.SampledFrom(kit.FaultErrKinds).Draw(t, "err_kind")
 	nu := rapid.IntRange(0, 8).Draw(t, "nu")
 	ns := rapid.IntRange(0, 8).Draw(t, "ns")
@@ -51,6 +58,7 @@ func genC10(t *rapid.T) C10Case {
 	c.Pos = rapid.IntRange(0, 2*(nu+ns)+2).Draw(t, "pos")
 	c.Tape = rapid.SliceOfN(rapid.Byte(), 0, 16).Draw(t, "tape")
 	c.Orphan = rapid.IntRange(0, 2).Draw(t, "orphan") == 0
+	c.TickMs = rapid.SampledFrom([]int{0, 50}).Draw(t, "tick_ms")
 	return c
 }
 
@@ -157,6 +165,13 @@ func execC10(t *testing.T, c C10Case) (v Verdict) {
 					sched.Park(nil, "gate-"+name) // ... and the handler takes its time to leave
 					return s.Context().Err()
 				})
+			case "sdl":
+				svc.Stream(name, true, true, func(s grpcServerStream) error {
+					enter(s.Context())
+					defer leave()
+					<-s.Context().Done() // its own deadline (30 ms) or the end of the connection, whichever comes first
+					return status.FromContextError(s.Context().Err()).Err()
+				})
 			case "secho":
 				svc.Stream(name, true, true, func(s grpcServerStream) error {
 					enter(s.Context())
@@ -180,7 +195,7 @@ func execC10(t *testing.T, c C10Case) (v Verdict) {
 			<-s.Context().Done()
 			return nil
 		})
-		w := kit.NewWorld(kit.Topo{Kind: "direct", Serialize: c.Ser, Clients: 1, Raw: true}, svc, nil, nil)
+		w := kit.NewWorld(kit.Topo{Kind: "direct", Serialize: c.Ser, Clients: 1, Raw: true, Stats: c.Stats}, svc, nil, nil)
 		l := w.Links[0]
 		sched.AddLink(l)
 		// the "ssend" handlers park in send: the transport write of their bodies is held
@@ -195,6 +210,9 @@ func execC10(t *testing.T, c C10Case) (v Verdict) {
 			e := kit.EnvSpec{}
 			if strings.HasPrefix(h.Kind, "u") {
 				e.Body, e.Wrap = &body, true
+			}
+			if h.Kind == "sdl" {
+				e.HdrMD = []kit.RawKV{{K: "grpc-timeout", V: "30m"}}
 			}
 			_ = l.A.Write(context.Background(), e.Build(uint64(i+1), kit.FullMethod(fmt.Sprintf("h%d", i)), "c0", kit.ServerName))
 			if h.Kind == "srst" {
@@ -217,6 +235,12 @@ func execC10(t *testing.T, c C10Case) (v Verdict) {
 			delivered++
 		}
 		kit.Settle()
+		if c.TickMs > 0 {
+			// (before the orphan step: there the read loop waits for the writer while holding the registry mutex, and a
+			// handler returning at its deadline would queue for that mutex, which stops the bubble's clock)
+			time.Sleep(time.Duration(c.TickMs) * time.Millisecond)
+			kit.Settle()
+		}
 		if c.Orphan {
 			// Just before the ending: every further response write parks (slow transport), a quick unary
 			// request is answered (its reply parks the connection's writer), and then a body arrives for a
